@@ -138,38 +138,11 @@ Fixpoint all2 {A B} (f : A -> B -> bool) (a : list A) (b : list B) : bool :=
   | _, _ => false
   end.
 (* One step of the model is run from the table the implementation actually holds (equal to the model's own table
-   whenever the previous step agreed).  sort_by: NumPy's default argsort is not stable (vectorised quicksort), so
-   among equal keys the implementation may order rows differently from the model's stable sort; such a result is
-   accepted when it has the same column types/widths, the same multiset of rows, and its key column is sorted. *)
+   whenever the previous step agreed).  The comparison is exact for every operation, sort_by included: the code sorts
+   with np.argsort(kind='stable') and the model's argsort is the stable insertion sort. *)
 Definition obs_tab (o : obs) : option ctable := match o with OTab c _ _ => Some c | _ => None end.
-Definition bcol_meta_eqb (a b : bcol) : bool :=
-  match a, b with
-  | ColNum d _, ColNum d' _ => dt_eqb d d'
-  | ColRag t _ _, ColRag t' x l => rtag_eqb t t' && (sumZ l =? len x) && forallb (fun n => 0 <=? n) l
-  | ColPad w _, ColPad w' m => (w =? w') && forallb (fun r => len r =? w') m
-  | ColFlat _, ColFlat _ => true
-  | _, _ => false
-  end.
-Definition col_meta_eqb (a b : col) : bool :=
-  match a, b with
-  | CBase x, CBase y => bcol_meta_eqb x y
-  | CNest x, CNest y => all2 bcol_meta_eqb x y
-  | _, _ => false
-  end.
-Definition sort_equiv (f : nat) (t o : ctable) (rows : list (list mcell)) : bool :=
-  all2 col_meta_eqb t o && aligned o
-  && perm_b (list_eqb mcell_eqb) (m_to_rows t) (m_to_rows o) && mrows_eqb (m_to_rows o) rows
-  && match nth_error o f with
-     | Some c => match sort_key_pinned c with Some v => sorted_b Z.leb v | None => false end
-     | None => false
-     end.
 Definition mstep_ok (sch : schema) (cur t1 : ctable) (o : op) (ob : obs) : bool :=
-  let m := m_step sch cur t1 o in
-  mres_eqb sch m ob
-  || match o, m, ob with
-     | OSort f, MTab sch' t, OTab c rows keys => sort_equiv f t c rows && zll_eqb (map fst (m_todict sch' t)) keys
-     | _, _, _ => false
-     end.
+  mres_eqb sch (m_step sch cur t1 o) ob.
 Fixpoint msteps_ok (sch : schema) (cur t1 : ctable) (p : list op) (os : list obs) : bool :=
   match p, os with
   | [], [] => true
